@@ -211,6 +211,20 @@ def eq_values(a, b):
     raise OutsideSubset("== on %s" % type(a).__name__)
 
 
+def le_values(a, b):
+    """python `a <= b` for ints and (lexicographically) for equal-length tuples of ints"""
+    if isinstance(a, (IntV, BoolV)) and isinstance(b, (IntV, BoolV)):
+        return as_int(a) <= as_int(b)
+    if isinstance(a, TupleV) and isinstance(b, TupleV) and len(a.items) == len(b.items):
+        r = z3.BoolVal(True)
+        for x, y in reversed(list(zip(a.items, b.items))):
+            if not (isinstance(x, (IntV, BoolV)) and isinstance(y, (IntV, BoolV))):
+                raise OutsideSubset("ordering of nested tuples")
+            r = z3.Or(as_int(x) < as_int(y), z3.And(as_int(x) == as_int(y), r))
+        return r
+    raise OutsideSubset("ordering of %s / %s" % (type(a).__name__, type(b).__name__))
+
+
 def as_int(v):
     if isinstance(v, IntV):
         return v.z
@@ -512,9 +526,7 @@ class VM:
             if len(items) != 2:
                 raise OutsideSubset("sorted on %d items" % len(items))
             keys = [self.call(keyf, [x], {}) if keyf else x for x in items]
-            if not all(isinstance(k, (IntV, BoolV)) for k in keys):
-                raise OutsideSubset("sorted keys must be ints")
-            if self.decide(as_int(keys[0]) <= as_int(keys[1])):
+            if self.decide(le_values(keys[0], keys[1])):
                 return TupleV(items, "list")
             return TupleV([items[1], items[0]], "list")
         if name == "len":
